@@ -67,6 +67,28 @@ def _opts_repr(o):
   return repr(d)
 
 
+def addsub_multiplier_overflow(m):
+  """LiteRT add.cc / sub.cc (8-bit and general 16-bit path) compute
+  real_output_multiplier = 2*max(s_in1, s_in2) / (2^left_shift * s_out) with
+  left_shift 15 (int16) / 20 (int8) and CHECK-abort when it is >= 1.  Returns the
+  name of the first ADD/SUB output for which that holds (F28), else None."""
+  for g in m.subgraphs:
+    for o in g.operators:
+      if int(m.operatorCodes[o.opcodeIndex].builtinCode) not in (0, 41):
+        continue
+      ts = [g.tensors[int(x)] for x in list(o.inputs)[:2] + list(o.outputs)[:1]]
+      if len(ts) != 3 or any(t.quantization is None or t.quantization.scale is None
+                             or len(t.quantization.scale) != 1 for t in ts):
+        continue
+      if int(ts[2].type) not in (7, 9):
+        continue
+      ls = 15 if int(ts[2].type) == 7 else 20
+      s1, s2, so = (float(t.quantization.scale[0]) for t in ts)
+      if so > 0 and 2 * max(s1, s2) / ((1 << ls) * so) >= 1.0:
+        return tname(ts[2])
+  return None
+
+
 def is_const(m, t):
   b = m.buffers[t.buffer]
   return b.data is not None and len(b.data) > 0
